@@ -338,6 +338,10 @@ func (r *Run) report(known KnownFile, evOut string, t0 time.Time) int {
 	for _, o := range all {
 		if o.Verdict == "unsat" {
 			discharged++
+			if os.Getenv("GOVC_AUDIT") != "" && (o.Hinted || strings.Contains(o.Solver, "#") || strings.Contains(o.Solver, "slice-") || o.Solver == "cvc5" || o.Solver == "z3" || o.Solver == "z3-new") && o.Kind != "cover" {
+				// stability audit: discharged only by the portfolio, a hint or an assumption slice
+				fmt.Fprintf(os.Stderr, "PORTFOLIO-DEPENDENT %s %s %.1fs\n", o.ID, o.Solver, o.TimeS)
+			}
 		} else {
 			failed = append(failed, o)
 		}
